@@ -964,7 +964,9 @@ VH_TARGET(fork_ids, 1,
           "parent and forked child each draw k ids from the random id generator; non-trivial always "
           "(k>=1); distinct = distinct (k, warm-up) pair")
 {
-  unsigned warm = c.rd.below(4), k = 1 + c.rd.below(6);
+  // at least one id is drawn BEFORE the fork in every case (also in the shrunk one): generator state that
+  // is filled by the first draw and inherited by the child must show in a fresh replay process too
+  unsigned warm = 1 + c.rd.below(4), k = 1 + c.rd.below(6);
   c.note("warmup=" + std::to_string(warm) + " k=" + std::to_string(k) + "\n");
   c.nontrivial = true;
   sdkt::RandomIdGenerator gen;
